@@ -365,7 +365,7 @@ def r4_restored_flags_live(ctx, rule):
 
 def rules(tier):
     return [('C14.R1', r1_rewind), ('C14.R2', r2_renormalisation), ('C14.R3', r3_skip_case),
-            ('C14.R4', r4_restored_flags_live), ('C14.R5', c08.r5_sav_keys), ('C14.R6', c01.r8_uniform_scale)]
+            ('C14.R4', r4_restored_flags_live), ('C14.R5', lambda c, r: c08.r5_sav_keys(c, r, sections=('rule_info',), floor=4)), ('C14.R6', c01.r8_uniform_scale)]
 
 
 META = {
